@@ -2,7 +2,7 @@ import G3D.Proofs.Algebra
 import G3D.Props.C01
 import G3D.Props.C02
 import G3D.Proofs.AlgebraB
-import G3D.Proofs.BodySoundSets
+import G3D.Proofs.BodySoundInter
 import G3D.Proofs.AlgebraAll
 import G3D.Proofs.K4f
 import G3D.Proofs.AlgebraEuler
